@@ -2048,10 +2048,15 @@ template <unsigned NCapacity>
 HFSM2_CONSTEXPR(14)
 void
 BitArrayT<NCapacity>::Bits::clear() noexcept {
-	const Index unitCount = contain(_width, 8);
+	const Index fullUnits = _width / 8;
 
-	for (Index i = 0; i < unitCount; ++i)
+	for (Index i = 0; i < fullUnits; ++i)
 		_storage[i] = uint8_t{0};
+
+	const Short bit = _width % 8;
+
+	if (bit != 0)
+		_storage[fullUnits] &= static_cast<uint8_t>(~((1 << bit) - 1));
 }
 
 template <unsigned NCapacity>
